@@ -15,6 +15,9 @@ iteration over a `HashMap`/`HashSet` in `src/` is listed and reviewed in `vlib/h
 -/
 namespace Anysystem
 
+/- the dump is sorted by (time, id) and is a permutation of the live (not cancelled) events: nothing lost, nothing invented -/
+#check @dumpEvents_sorted
+#check @dumpEvents_perm_live
 #check @dumpEvents_perm
 #check @snapshotEvents_perm
 #check @crashNode_eq_ord
